@@ -1503,6 +1503,12 @@ def real_linear_only(types, node):
 # --------------------------------------------------------------------------
 # reference interpreter
 
+class RefOverflow(Exception):
+    """The *reference* evaluation of a leaf left the floating-point range
+    (Python floats on field domains raise instead of returning inf): an
+    input-range matter, the case is to be counted trivial."""
+
+
 class NearNondiff(Exception):
     """A leaf is evaluated too close to its non-differentiable set."""
 
@@ -1565,9 +1571,12 @@ class Interp(object):
                 raise NearNondiff('{} at distance {:.3g}'.format(
                     node['kind'], dist))
         self.leaf_calls += 1
-        xe = self.env.element(node['dom'], x)
-        y = b.obj(xe)
-        return to_np(y, self.env.set(node['ran']))
+        try:
+            xe = self.env.element(node['dom'], x)
+            y = b.obj(xe)
+            return to_np(y, self.env.set(node['ran']))
+        except (OverflowError, ZeroDivisionError, FloatingPointError) as e:
+            raise RefOverflow('{}: {}'.format(type(e).__name__, e))
 
     def _ev(self, b, x):
         node = b.node
